@@ -29,14 +29,14 @@ CHECKS = {
     "C01": {
         "engine": "E1+E4",
         "technique": "abstract interpretation of every Unit(...) construction site in a three-component group domain (prefix / factors / dimension) + CFG dominance of exactness guards over floor divisions",
-        "level_text": "Unit.__new__ ignores the dimension argument for an interned key, so the history property reduces to: every construction site passes the dimension that is the homomorphic image of the factors it passes. All 10 sites are enumerated from the resolved call graph and decided for all operands at once; the three root() guards are decided on the CFG (floor division or divmod); the dimension a serialised unit is rebuilt with must be decoded from the encoded exponents on every path (R01.7); re-constructing an interned unit must leave its fields alone (R01.8, pruned CFG of __init__); only the core module calls the interning constructor (R01.9). Every obligation is discharged on the repaired tree (two fix: commits).",
+        "level_text": "Unit.__new__ ignores the dimension argument for an interned key, so the history property reduces to: every construction site passes the dimension that is the homomorphic image of the factors it passes. All 10 sites are enumerated from the resolved call graph and decided for all operands at once; the three root() guards are decided on the CFG (floor division or divmod); the dimension a serialised unit is rebuilt with must be decoded from the encoded exponents on every path (R01.7); re-constructing an interned unit must leave its fields alone (R01.8, pruned CFG of __init__); only the core module calls the interning constructor (R01.9). Every obligation is discharged on the repaired tree (two fix: commits). Methods that take a unit apart as base ** exponent are also run on such operands (R01.1 then decides a fast path's dimension argument).",
         "design_ref": "DESIGN.md section 4, C01",
         "level_note": E4_NOTE + " Assumes Dimension arithmetic is the exponent-vector group (decided by C02 R02.5).",
     },
     "C02": {
         "engine": "E1+E4",
         "technique": "structural rules on the three interning constructors (key dataflow, CFG dominance of the table store) + abstract interpretation of every Dimension/Prefix/Unit operator against the free-abelian-group specification (log-values for prefixes)",
-        "level_text": "Eleven structural facts (canonical keys, intern protocol, Dimension.define re-keying every interned dimension, no memoised operator keyed by conflated numeric types, identity hashing or an __eq__/__hash__ that is exactly the interning key over never-reassigned fields, factor order by identity, componentwise group operations, renormalisation, no allocation bypass, base-unit keys, change-of-base identity) together imply that interned objects are exactly the elements of a free abelian group, for expression trees of any shape. Each fact is an armed rule over resolved structure; all are discharged.",
+        "level_text": "Eleven structural facts (canonical keys, intern protocol, Dimension.define re-keying every interned dimension, no memoised operator keyed by conflated numeric types, identity hashing or an __eq__/__hash__ that is exactly the interning key over never-reassigned fields, factor order by identity, componentwise group operations, renormalisation, no allocation bypass, base-unit keys, change-of-base identity) together imply that interned objects are exactly the elements of a free abelian group, for expression trees of any shape. Each fact is an armed rule over resolved structure; all are discharged. A binary operator rejects an operand it does not know by returning NotImplemented, never by raising, whenever another class defines the reflected operator (R02.12); integer helpers called per element are interpreted, with sign cases kept consistent.",
         "design_ref": "DESIGN.md section 4, C02",
         "level_note": E4_NOTE + " Not decided: the 1e-9 numeric bound for mixed-base prefixes and exactness tests on float exponents.",
     },
@@ -57,35 +57,35 @@ CHECKS = {
     "C16": {
         "engine": "E6",
         "technique": "translation validation: the grammar is compiled with Lark as the Makefile does; terminals, rules (up to renaming of generated helper nonterminals), options and the LALR automaton (isomorphism by BFS from the start states) are compared with the tables extracted from _parser.py by an AST literal evaluator",
-        "level_text": "Same terminals, same rules including tree-shaping options, and isomorphic LALR tables run by the same table-driven runtime accept the same language and build the same trees, for every input string and both start symbols; the embedded lexer is shown to consume input only through the scanner built from that terminal table (R16.7), the LALR driver to read actions and gotos from those tables (R16.8), and 191 of the 250 functions of the embedded runtime are AST-identical to the installed Lark's source (R16.9); the 59 that differ between the two Lark versions and the module/class skeleton are compared with the generator's pinned output while the embedded version string is unchanged (R16.10), and no module assigns into the generated parser module (R16.11). Complete for the language question given the trusted embedded runtime; no input is parsed. Tables shipped in the generator's compressed form (base64 / zlib / pickle of plain data) are decoded as data - any class reference in the pickle is refused - and compared like the literal form.",
+        "level_text": "Same terminals, same rules including tree-shaping options, and isomorphic LALR tables run by the same table-driven runtime accept the same language and build the same trees, for every input string and both start symbols; the embedded lexer is shown to consume input only through the scanner built from that terminal table (R16.7), the LALR driver to read actions and gotos from those tables (R16.8), and 191 of the 250 functions of the embedded runtime are AST-identical to the installed Lark's source (R16.9); the 59 that differ between the two Lark versions and the module/class skeleton are compared with the generator's pinned output while the embedded version string is unchanged (R16.10), and no module assigns into the generated parser module (R16.11). Complete for the language question given the trusted embedded runtime; no input is parsed. Tables shipped in the generator's compressed form (base64 / zlib / pickle of plain data) are decoded as data - any class reference in the pickle is refused - and compared like the literal form. No module changes, in place, an object reached from the generated module or from the parser built from it (R16.11, taint analysis).",
         "design_ref": "DESIGN.md section 4, C16",
         "level_note": "Trusted: the 59 functions of the embedded Lark 1.1.2 runtime that differ from Lark 1.3.1 (sa/data/lark_runtime_residue.json; no reference copy of 1.1.2 offline), Lark 1.3.1 as grammar compiler and as reference source. Serialisation fields only one version has are skipped and named in the evidence.",
     },
     "C17": {
         "engine": "E1+E2/E3+E6",
         "technique": "callback coverage against the shipped grammar tables; context-pruned reachability from the transformer callbacks; explicit-raise closure against KeyError / LarkError subclasses (hierarchy read from _parser.py's AST); interprocedural catch-and-convert rule for int() of unbounded tokens; who-may-write on the registries; memo-key lint",
-        "level_text": "Every grammar rule has a callback; on the functions reachable from the callbacks the only exception classes that can escape through raise statements are KeyError and LarkError subclasses; the three int() conversions of unbounded digit tokens are caught and re-raised as ParseError (one fix: commit), and a table of other library calls that are partial on text (unicodedata.name, Decimal, next, str.index ...) is applied to the parser zone; a bare builtin magnitude callback must be fed by Lark's standard number terminal (R17.6); no reachable function writes a name/symbol registry or imports a declaring module; magnitudes come from the builtin int/float; no memo on the path is keyed by a number or reads the registries. Lexing/parsing failures inside the embedded Lark runtime are the trusted base. The callbacks of the shared module-level transformer keep no state on it (R17.7: the same text parses the same whatever was parsed or rejected before), and nothing on the parse path issues a warning (R17.8: a warning leaves parse() as an exception of its category wherever warnings are escalated).",
+        "level_text": "Every grammar rule has a callback; on the functions reachable from the callbacks the only exception classes that can escape through raise statements are KeyError and LarkError subclasses; the three int() conversions of unbounded digit tokens are caught and re-raised as ParseError (one fix: commit), and a table of other library calls that are partial on text (unicodedata.name, Decimal, next, str.index ...) is applied to the parser zone; a bare builtin magnitude callback must be fed by Lark's standard number terminal (R17.6); no reachable function writes a name/symbol registry or imports a declaring module; magnitudes come from the builtin int/float; no memo on the path is keyed by a number or reads the registries. Lexing/parsing failures inside the embedded Lark runtime are the trusted base. The callbacks of the shared module-level transformer keep no state on it (R17.7: the same text parses the same whatever was parsed or rejected before), and nothing on the parse path issues a warning (R17.8: a warning leaves parse() as an exception of its category wherever warnings are escalated). Builtin exceptions raised in the algebra code the callbacks reach are part of the closure (the sites on the unchanged tree are infeasible in the parse context).",
         "design_ref": "DESIGN.md section 4, C17",
         "level_note": "Trusted: the embedded Lark runtime raises only LarkError subclasses; mypy call resolution; Any-typed arguments conform to annotations. Not decided: implicit exceptions of builtins outside the partial-call table (float('1e999') is inf).",
     },
     "C19": {
         "engine": "E1+E2+E5",
         "technique": "interprocedural write-then-raise analysis on statement CFGs of the definition entry points (summaries of may-write-naming / may-raise per callee); dominance of raising guards over registry bindings; constructor early-return rule; creation trace and registries from the declaration evaluator under every entry module; memo-over-registry rule",
-        "level_text": "A failing definition leaves the registries untouched iff no raise is reachable after a naming write on any path through the entry point and its callees; a name is never bound to two objects iff every binding is dominated by a raising test and the shipped tables have no duplicates; a declared name survives an earlier anonymous construction iff the declaring constructor registers late names; a rejected constructor call leaves no half-built or prematurely initialised instance in the intern table (R19.7/R19.8, must-assign analysis on the CFG of __init__); no shipped dimension is declared under two names (R19.9); named(name) is the name registry's entry (R19.10); no assert in naming functions (R19.11); registries are plain dicts (R19.12); Dimension.scale is an entry point with summaries computed over the context-pruned reachable set. All decided structurally and, for the shipped configuration, exhaustively; discharged after six fix: commits. An interning __new__ whose __init__ registers names on initialised instances returns only the object of the call's own key, never one fetched from a name registry (R19.13).",
+        "level_text": "A failing definition leaves the registries untouched iff no raise is reachable after a naming write on any path through the entry point and its callees; a name is never bound to two objects iff every binding is dominated by a raising test and the shipped tables have no duplicates; a declared name survives an earlier anonymous construction iff the declaring constructor registers late names; a rejected constructor call leaves no half-built or prematurely initialised instance in the intern table (R19.7/R19.8, must-assign analysis on the CFG of __init__); no shipped dimension is declared under two names (R19.9); named(name) is the name registry's entry (R19.10); no assert in naming functions (R19.11); registries are plain dicts (R19.12); Dimension.scale is an entry point with summaries computed over the context-pruned reachable set. All decided structurally and, for the shipped configuration, exhaustively; discharged after six fix: commits. An interning __new__ whose __init__ registers names on initialised instances returns only the object of the call's own key, never one fetched from a name registry (R19.13). Taking an entry out of an intern table (re-keying) counts as a write for R19.1.",
         "design_ref": "DESIGN.md section 4, C19",
         "level_note": "Trusted: mypy call resolution; E5's declaration model. That the intern table keeps an anonymous, fully built instance after a failing definition is accepted (indistinguishable from an earlier anonymous construction); Dimension.scale's translate() guard is infeasible for a fresh unit and is not an entry.",
     },
     "C20": {
         "engine": "E1+E2",
         "technique": "typestate-style structural rule on the interning constructors (membership test and insertion in one atomic section: common module-level lock or returned dict.setdefault), who-may-write on the intern tables, effect check on the lru_cache'd helpers",
-        "level_text": "All threads obtain one object and the registry keeps one entry under every interleaving iff test-and-insert is a single atomic step in each of the three constructors and nothing else writes the tables; decided on the shape of Dimension/Prefix/Unit.__new__ (setdefault idiom after one fix: commit), with the memoised helpers and everything they call shown free of shared effects apart from interning (class-level scratch containers count), and the intern tables shown to be builtin dicts (R20.4). Schedules are not enumerated: the argument is that no interleaving point exists between test and insert. In the three __init__ methods every attribute an intern key is built from is assigned once on each path: an interned object is visible to other threads before __init__ runs, and __init__ is re-run on it by every thread that got it early (R20.5).",
+        "level_text": "All threads obtain one object and the registry keeps one entry under every interleaving iff test-and-insert is a single atomic step in each of the three constructors and nothing else writes the tables; decided on the shape of Dimension/Prefix/Unit.__new__ (setdefault idiom after one fix: commit), with the memoised helpers and everything they call shown free of shared effects apart from interning (class-level scratch containers count), and the intern tables shown to be builtin dicts (R20.4). Schedules are not enumerated: the argument is that no interleaving point exists between test and insert. In the three __init__ methods every attribute an intern key is built from is assigned once on each path: an interned object is visible to other threads before __init__ runs, and __init__ is re-run on it by every thread that got it early (R20.5). R20.3 covers every module of the package, the shipped test helpers included.",
         "design_ref": "DESIGN.md section 4, C20",
         "level_note": "Trusted: CPython's GIL makes dict.setdefault on C-hashed keys atomic; functools.lru_cache is thread-coherent. Not decided: visibility of a partially initialised object between __new__ and __init__; free-threaded builds.",
     },
     "C18": {
         "engine": "E1+E4+E5",
         "technique": "abstract interpretation of LogarithmicUnit.level and Level.quantify to normal forms with ln/exp heads, compared with the logarithmic definition; units-of-measure typing of the log argument; structural rules; declared bases from E5",
-        "level_text": "level() normalises to (k/p)*log_B(val(q)/val(ref)) and quantify() to B**(L*p/k)*ref for symbolic base, prefix, power ratio, reference and units, so the two directions are mutually inverse and the level is increasing for B > 1 (all declared bases are). The log argument is shown dimensionless, the reference unprefixed, k in {1,2} by membership, and Logarithm / LogarithmicUnit are interned under keys that determine their defining arguments exactly (R18.7); membership in ROOT_POWER_DIMENSIONS cannot go stale (R18.8) and the table has no entry written twice (R18.9); a pickle hook on Logarithm/LogarithmicUnit covers its interning key (R18.10); Level.__init__ keeps what it is given (R18.11); Prefix.quantify is base**exponent (R11.2, shared). prefix * logarithm keeps the base and multiplies the prefixes: log-values add on every arm with Prefix.__mul__ interpreted (R18.12).",
+        "level_text": "level() normalises to (k/p)*log_B(val(q)/val(ref)) and quantify() to B**(L*p/k)*ref for symbolic base, prefix, power ratio, reference and units, so the two directions are mutually inverse and the level is increasing for B > 1 (all declared bases are). The log argument is shown dimensionless, the reference unprefixed, k in {1,2} by membership, and Logarithm / LogarithmicUnit are interned under keys that determine their defining arguments exactly (R18.7); membership in ROOT_POWER_DIMENSIONS cannot go stale (R18.8) and the table has no entry written twice (R18.9); a pickle hook on Logarithm/LogarithmicUnit covers its interning key (R18.10); Level.__init__ keeps what it is given (R18.11); Prefix.quantify is base**exponent (R11.2, shared). prefix * logarithm keeps the base and multiplies the prefixes: log-values add on every arm with Prefix.__mul__ interpreted (R18.12). log10 / log2 / log1p are modelled, so a level() that special-cases its base is decided per arm; a result the interpreter cannot model is an analysis error, not a verdict.",
         "design_ref": "DESIGN.md section 4, C18",
         "level_note": E4_NOTE + " Axiom: in_unit value-preserving (C04). Not decided: floating-point rounding.",
     },
@@ -120,14 +120,14 @@ CHECKS = {
     "C14": {
         "engine": "E1+E4",
         "technique": "abstract interpretation of every Measurement operator to normal forms (rational functions with sqrt/abs heads); symbolic differentiation of the method's own measurand expression; units-of-measure typing of the stored uncertainty",
-        "level_text": "For + - * / ** and the reflected forms, with a Measurement or a plain Quantity on the other side, sigma^2 of the result is normalised and compared with sum((df/dx_i)^2 sigma_i^2), f being the measurand expression of the same method - an identity of rational functions, hence for all magnitudes, uncertainties, units and (symbolic) exponents (sign cases of abs(n) and zero-measurand shortcuts are explored as choice points). Unit typing, absence of spurious singularities, abs() storage, a constructor that keeps what it is given (R14.6) and Quantity operators that step aside for a Measurement operand (R14.7) are separate armed rules. All obligations are discharged after two fix: commits.",
+        "level_text": "For + - * / ** and the reflected forms, with a Measurement or a plain Quantity on the other side, sigma^2 of the result is normalised and compared with sum((df/dx_i)^2 sigma_i^2), f being the measurand expression of the same method - an identity of rational functions, hence for all magnitudes, uncertainties, units and (symbolic) exponents (sign cases of abs(n) and zero-measurand shortcuts are explored as choice points). Unit typing, absence of spurious singularities, abs() storage, a constructor that keeps what it is given (R14.6) and Quantity operators that step aside for a Measurement operand (R14.7) are separate armed rules. All obligations are discharged after two fix: commits. No assert takes part in the computation of an uncertainty (R07.9, shared with C07).",
         "design_ref": "DESIGN.md section 4, C14",
         "level_note": E4_NOTE + " Axioms: in_unit value-preserving (C04), Quantity operators as specified (C03/C06). Not decided: floating-point rounding of the verified formulas.",
     },
     "C10": {
         "engine": "E5+E1+E4",
         "technique": "exact affine-map composition over the declared temperature graph (E5, rationals from literal text) + order rules on convert/_plan_conversion (list-order abstraction) + translate store identities (E4) + comparison normal forms",
-        "level_text": "Equality of the two coefficients of an affine map is equality for all magnitudes: the 12 composed maps are compared exactly with the definitions; the graph is shown to be a tree with leaf scales; multiply-then-offset within a hop, prefix-step-last across the plan, offset-preserving hop rebuilding (R10.7), offsets only ever added to a product (R10.8, package-wide and through helpers, the CLI included) and Quantity.in_unit being exactly convert(self, unit) (R05.7) are decided structurally, so prefixed targets scale the offsets too (one fix: commit). Cross-scale comparisons are shown to compare converted magnitudes.",
+        "level_text": "Equality of the two coefficients of an affine map is equality for all magnitudes: the 12 composed maps are compared exactly with the definitions; the graph is shown to be a tree with leaf scales; multiply-then-offset within a hop, prefix-step-last across the plan, offset-preserving hop rebuilding (R10.7), offsets only ever added to a product (R10.8, package-wide and through helpers, the CLI included) and Quantity.in_unit being exactly convert(self, unit) (R05.7) are decided structurally, so prefixed targets scale the offsets too (one fix: commit). Cross-scale comparisons are shown to compare converted magnitudes. No assert takes part in a definition or a conversion (R07.9, shared with C07).",
         "design_ref": "DESIGN.md section 4, C10",
         "level_note": "Trusted: E5's declaration model; assumption that the planner follows the unique simple path of the temperature tree (the tree shape is checked). Not decided: floating-point rounding of round trips.",
     },
@@ -141,21 +141,21 @@ CHECKS = {
     "C07": {
         "engine": "E1+E2/E3",
         "technique": "context-pruned reachability from the conversion entry points over the mypy-resolved call graph; assert/__debug__ scan; explicit-raise closure with handler matching; CFG dominance of the visited-set guard; mypy diagnostics as a typed lint in the planner",
-        "level_text": "On the set of functions reachable from convert / in_unit / + / - / == / < (about 60, parser pruned away by call-site specialisation) there is no assert and no __debug__, so -O compiles identical code; the only exception classes that can escape through raise statements are ConversionNotFound (conversion entries) and none (comparison entries); handlers are exact; the path search recursion is bounded by a per-query visited set; in the planner no reduce() runs over a possibly empty sequence no element is taken from a filtered (possibly empty) sequence without an emptiness test, no dict entry is read in a loop that may delete it, every cycle of the reachable call graph has a stated bound (R07.6), _splat puts every factor on the table (R07.7) and Measurement's comparisons never convert outside a handler (R07.8). Discharged after one fix: commit replacing four asserts.",
+        "level_text": "On the set of functions reachable from convert / in_unit / + / - / == / < (about 60, parser pruned away by call-site specialisation) there is no assert and no __debug__, so -O compiles identical code; the only exception classes that can escape through raise statements are ConversionNotFound (conversion entries) and none (comparison entries); handlers are exact; the path search recursion is bounded by a per-query visited set; in the planner no reduce() runs over a possibly empty sequence no element is taken from a filtered (possibly empty) sequence without an emptiness test, no dict entry is read in a loop that may delete it, every cycle of the reachable call graph has a stated bound (R07.6), _splat puts every factor on the table (R07.7) and Measurement's comparisons never convert outside a handler (R07.8). Discharged after one fix: commit replacing four asserts. No assert anywhere in the package has an effect (R07.9), and where _cancel_factors pops under a dimension and under its inverse it tests that the two keys differ (R07.10).",
         "design_ref": "DESIGN.md section 4, C07",
         "level_note": "Trusted: mypy call resolution; assumption that Any-typed arguments conform to declared annotations. Not decided: implicit KeyError/IndexError from dict/list operations inside the planner's multiset heuristics (inventoried), and whether a possible conversion is found (C04).",
     },
     "C08": {
         "engine": "E1+E2",
         "technique": "effect analysis: transitive (context-pruned) read sets of memoised functions vs writers of module-level tables and registries, with CFG check that each writer invalidates after writing; who-may-write; alias-taint analysis for in-place mutation of memoised results; determinism lint",
-        "level_text": "History independence reduces to: every memo is over immutable inputs or is invalidated by every writer of what it reads; nothing but equate/translate writes the tables; queries keep no other state; cached objects are never mutated in place; no address-dependent iteration. All rules are armed over resolved structure and discharged after one fix: commit (cache invalidation); memo keys must not conflate numeric types (R08.6); nothing changes the decimal context (R08.7) and in_unit is convert(self, unit) with nothing around it (R05.7). A helper that clears the caches counts as an invalidation only for the caches it clears on every path to its normal exit (a conditional clear is none).",
+        "level_text": "History independence reduces to: every memo is over immutable inputs or is invalidated by every writer of what it reads; nothing but equate/translate writes the tables; queries keep no other state; cached objects are never mutated in place; no address-dependent iteration. All rules are armed over resolved structure and discharged after one fix: commit (cache invalidation); memo keys must not conflate numeric types (R08.6); nothing changes the decimal context (R08.7) and in_unit is convert(self, unit) with nothing around it (R05.7). A helper that clears the caches counts as an invalidation only for the caches it clears on every path to its normal exit (a conditional clear is none). Nothing inside a memoised computation turns an environment-dependent exception (RecursionError, MemoryError, a catch-all) into a value the memo would keep (R08.8); a mutable default argument that its function writes is shared state wherever it is (R08.3).",
         "design_ref": "DESIGN.md section 4, C08",
         "level_note": "Trusted: mypy call resolution, functools.lru_cache semantics. Intern tables (_known) are exempt by kind (append-only, idempotent). Not decided: bit-identical floating-point results across processes.",
     },
     "C09": {
         "engine": "E5",
         "technique": "partial evaluation of the declaration DSL from the AST in exact rational arithmetic + multiplicative Gaussian elimination (every cycle of the definition graph) + graph reachability under the planner's decomposition rules (anchors verified in the source)",
-        "level_text": "Every declared equivalence of every shipped module is evaluated from source text in exact arithmetic; every dependent equation (= every cycle, also through compound units) must close within 1e-5 x degree, every base unit must be determined by the equations and the SI anchors, and every named unit must satisfy a necessary condition for the planner to reach SI that is derived from three facts re-verified in conversions.py (paths join whole units; a unit is decomposed only through its own larger equivalence and never in a base dimension): R09.7 found Donkeypower stranded (one fix: commit). Exhaustive over the shipped configuration, which is the property's whole quantifier; one genuine inconsistency (TonOfRefrigeration) is pinned by the tests and listed as a known finding, hence 'other' rather than 'proof'. One and the dimensionless SI units (radian, steradian) are worth 1 - SI defines them so and the planner sheds them without a step (anchor F4, re-verified) - so an equation that would give one of them another size is a dependent equation with a residual; when _cancel_factors emits steps for a left-over dimensionless factor instead, a named compound containing one (lumen, lux) needs a declared path from that factor to One (R09.7).",
+        "level_text": "Every declared equivalence of every shipped module is evaluated from source text in exact arithmetic; every dependent equation (= every cycle, also through compound units) must close within 1e-5 x degree, every base unit must be determined by the equations and the SI anchors, and every named unit must satisfy a necessary condition for the planner to reach SI that is derived from three facts re-verified in conversions.py (paths join whole units; a unit is decomposed only through its own larger equivalence and never in a base dimension): R09.7 found Donkeypower stranded (one fix: commit). Exhaustive over the shipped configuration, which is the property's whole quantifier; one genuine inconsistency (TonOfRefrigeration) is pinned by the tests and listed as a known finding, hence 'other' rather than 'proof'. One and the dimensionless SI units (radian, steradian) are worth 1 - SI defines them so and the planner sheds them without a step (anchor F4, re-verified) - so an equation that would give one of them another size is a dependent equation with a residual; when _cancel_factors emits steps for a left-over dimensionless factor instead, a named compound containing one (lumen, lux) needs a declared path from that factor to One (R09.7). R09.7 is checked in both directions: the search from the SI unit to a unit takes a common root only when both ends have one (anchor F5), so a unit tied to SI only through a squared length needs an equivalence of its own to be decomposed through.",
         "design_ref": "DESIGN.md section 4, C09",
         "level_note": "Trusted: E5's model of Unit.equals / Dimension.scale / operator semantics (sa/decl.py); literal text is the intended exact value. Not decided: that the planner finds a route for every unit passing the necessary condition R09.7, and the value it computes (C04).",
     },
